@@ -292,6 +292,9 @@ class Recorder(object):
         self.sub_of_thread = {}
         self.nsubs = 0
         self.brokers = []
+        self.typed = {}
+        self.pending = {}
+        self.cur_att = {}
 
     def worker(self):
         t = threading.get_ident()
@@ -331,6 +334,32 @@ class Recorder(object):
                             "tb": bool(broker.tracebacks.get(ex))})
         return out
 
+    def add_typed(self, broker):
+        for tname, typ in (("plugin", plugins.PluginType), ("datasource", plugins.datasource), ("parser", plugins.parser), ("rule", plugins.rule),
+                           ("combiner", plugins.combiner)):
+            broker.add_observer(self.typed_observer(tname), typ)
+
+    def attempt_no(self, c, name):
+        """All observers of one attempt fire consecutively in one thread (in set order): number the
+        attempts per thread so that the typed observers' sightings find their attempt event."""
+        t = threading.get_ident()
+        st = self.cur_att.get(t)
+        if st is None or st["c"] != c or name in st["seen"]:
+            st = {"c": c, "seen": set(), "n": (st["n"] + 1 if st else 0)}
+            self.cur_att[t] = st
+        st["seen"].add(name)
+        return (t, st["n"])
+
+    def typed_observer(self, tname):
+        """An observer registered for one component type; what it saw is attached to the attempt event."""
+        def obs(component, broker):
+            c = self.prog.cid(component)
+            if c:
+                with self.lock:
+                    self.typed.setdefault(self.attempt_no(c, tname), []).append(
+                        {"t": tname, "has": component in broker})
+        return obs
+
     def observer(self, component, broker):
         c = self.prog.cid(component)
         with self.lock:
@@ -350,8 +379,10 @@ class Recorder(object):
                 m = dict(NOMISS) if mr is None else {"set": True, "mr": [self.prog.cid(x) for x in mr[0]],
                                                      "mg": [[self.prog.cid(x) for x in g] for g in mr[1]]}
                 v = self.prog.proj(broker[component]) if component in broker else dict(ABSENT)
-                self.events.append({"ev": "att", "w": w, "s": self.sub_of_thread.get(w, 0), "c": c, "v": v,
-                                    "m": m, "calls": calls, "recs": recs})
+                ev = {"ev": "att", "w": w, "s": self.sub_of_thread.get(w, 0), "c": c, "v": v,
+                      "m": m, "calls": calls, "recs": recs, "obs": [{"t": "any", "has": component in broker}]}
+                self.events.append(ev)
+                self.pending[self.attempt_no(c, "rec")] = ev
         if self.obsfail:
             raise RuntimeError("failing observer")
 
@@ -371,6 +402,11 @@ class Recorder(object):
         return [plain, functools.partial(with_arg, "x"), Obj(), lambda c, b: 1 // 0]
 
     def end(self):
+        # observers fire in set order, so the typed ones may come before or after the recording one:
+        # attach what they saw when the run is over
+        for key, ev in self.pending.items():
+            ev["obs"].extend(self.typed.get(key, []))
+            ev["obs"].sort(key=lambda o: o["t"])
         recs = []
         for b in self.brokers:
             recs.extend(self.recs_of(b, 0))
@@ -408,6 +444,7 @@ def run_case(case, driver, npad, listlen, obsfail, idtag=""):
             b = dr.Broker()
             b.store_skips = bool(case["ss"])
             b.add_observer(rec.observer)
+            rec.add_typed(b)
             if obsfail:
                 for o in rec.extra_observers():
                     b.add_observer(o)
@@ -433,6 +470,7 @@ def run_case(case, driver, npad, listlen, obsfail, idtag=""):
                 orig_broker.__init__(self, seed_broker)
                 self.store_skips = bool(case["ss"])
                 self.add_observer(rec.observer)
+                rec.add_typed(self)
                 if obsfail:
                     for o in rec.extra_observers():
                         self.add_observer(o)
